@@ -15,6 +15,7 @@ import (
 	"runtime"
 	"runtime/debug"
 	"runtime/metrics"
+	"runtime/pprof"
 	"sort"
 	"strings"
 	"sync"
@@ -40,6 +41,8 @@ type c10Case struct {
 	Val     []byte `json:"val,omitempty"`  // bytes written at Off (set/burst/fill/xor: the resulting bytes)
 	Del     int    `json:"del,omitempty"`  // splice: number of bytes replaced by Val
 	Note    string `json:"note,omitempty"` // e.g. "footer-count=max"
+	// Focus: addresses named by the damaged record / index entry (large fixtures probe these plus a fixed sample)
+	Focus []string `json:"focus,omitempty"`
 	// journal-file cases: what the recovery rules allow (computed by the parent from the record layout)
 	JDamaged     int  `json:"jdamaged,omitempty"`    // index of the first damaged record
 	JStateBefore int  `json:"jstate_before"`         // last committed state wholly before the damage (-1: none)
@@ -97,6 +100,12 @@ func c10BatchMain(args []string) int {
 	lim := syscall.Rlimit{Cur: 12 << 30, Max: 12 << 30}
 	syscall.Setrlimit(syscall.RLIMIT_AS, &lim)
 	debug.SetGCPercent(50)
+	if pf := os.Getenv("VERIF_C10_PROF"); pf != "" { // cost diagnosis of the harness itself
+		if f, err := os.Create(pf); err == nil {
+			pprof.StartCPUProfile(f)
+			defer pprof.StopCPUProfile()
+		}
+	}
 	nbs.TableIndexGCFinalizerWithStackTrace = false
 	b, err := os.ReadFile(args[0])
 	if err != nil {
@@ -175,7 +184,7 @@ func c10BatchMain(args []string) int {
 				}
 				done <- res
 			}()
-			c10ReadAll(fx, dir, &res)
+			c10ReadAll(fx, dir, cs.Focus, &res)
 		}()
 		var res c10Result
 		select {
@@ -253,7 +262,7 @@ func c10Apply(data []byte, cs c10Case) []byte {
 }
 
 // c10ReadAll opens the store in dir and reads everything, comparing with the fixture's model.
-func c10ReadAll(fx *c10Fixture, dir string, res *c10Result) {
+func c10ReadAll(fx *c10Fixture, dir string, focus []string, res *c10Result) {
 	ctx := context.Background()
 	noteErr := func(at string, err error) {
 		res.Errors++
@@ -326,16 +335,46 @@ func c10ReadAll(fx *c10Fixture, dir string, res *c10Result) {
 		copy(k[:], c.h[:16])
 		by16[k] = c.h
 	}
+	// Small fixtures: every model address and its neighbours. Large fixtures (journal served from its index): HasMany,
+	// IterateAllChunks and Count still cover every chunk; the per-address paths probe the addresses named by the damaged
+	// record / index entry, a fixed sample of the rest and all chunks of the later commits.
 	probes := hash.NewHashSet()
+	large := len(fx.Chunks) > 2000
+	step := 1
+	if large {
+		step = len(fx.Chunks) / 150
+	}
+	firstN := 0
+	if len(fx.States) > 0 {
+		firstN = fx.States[0].N
+	}
 	for i, c := range fx.Chunks {
+		if large && i%step != 0 && i < firstN-8 {
+			continue
+		}
 		probes.Insert(c.h)
-		if len(fx.Chunks) < 200 || i%(len(fx.Chunks)/100) == 0 {
+		if !large || i%(step*4) == 0 || i >= firstN-8 {
 			for _, nb := range oracle.Neighbours(c.h) {
 				probes.Insert(nb)
 			}
 		}
 	}
+	for _, f := range focus {
+		if h, ok := hash.MaybeParse(f); ok {
+			probes.Insert(h)
+			for _, nb := range oracle.Neighbours(h) {
+				probes.Insert(nb)
+			}
+		}
+	}
 	sorted := oracle.SortedHashes(probes)
+	allAddrs := probes
+	if large {
+		allAddrs = probes.Copy()
+		for _, c := range fx.Chunks {
+			allAddrs.Insert(c.h)
+		}
+	}
 
 	// checkChunk: a chunk returned under address h.
 	checkChunk := func(path string, h hash.Hash, data []byte, allow16 bool) (hash.Hash, bool) {
@@ -395,10 +434,10 @@ func c10ReadAll(fx *c10Fixture, dir string, res *c10Result) {
 		}
 	}
 	// HasMany
-	if abs, err := st.HasMany(ctx, probes.Copy()); err != nil {
+	if abs, err := st.HasMany(ctx, allAddrs.Copy()); err != nil {
 		noteErr("HasMany", err)
 	} else {
-		for _, h := range sorted {
+		for _, h := range oracle.SortedHashes(allAddrs) {
 			_, inModel := model[h]
 			if abs.Has(h) {
 				absent("HasMany", h)
